@@ -136,6 +136,20 @@ def gen_mk_op(rng):
     return {"op": "mk", "what": what, "world": w}
 
 
+RETAG_FIELDS = {"winds": [("velocity", "Velocity"), ("direction_from", "Angular"), ("until_distance", "Distance")],
+                "weapons": [("sight_height", "Distance"), ("twist", "Distance"), ("zero_elevation", "Angular")],
+                "shots": [("look_angle", "Angular"), ("relative_angle", "Angular"), ("cant_angle", "Angular")],
+                "ammos": [("mv", "Velocity"), ("powder_temp", "Temperature")],
+                "atmos": [("altitude", "Distance"), ("pressure", "Pressure"), ("temperature", "Temperature")],
+                "dms": [("weight", "Weight"), ("diameter", "Distance"), ("length", "Distance")]}
+
+
+def gen_retag(rng, w, kinds=("winds", "winds", "winds", "weapons", "shots", "ammos", "atmos", "dms")):
+    kind = gen.pick(rng, [k for k in kinds if w.get(k)])
+    f, dim = gen.pick(rng, RETAG_FIELDS[kind])
+    return {"op": "retag", "kind": kind, "index": rng.randrange(len(w[kind])), "field": f, "unit": pick_unit(rng, dim)}
+
+
 def gen_fire_tmp(rng, calc, family):
     """fire with objects that live only for this operation; within one task the tables of these throw-away models
     belong to ONE family (same shipped table, stride and offset => same length, different contents), the situation in
@@ -147,13 +161,22 @@ def gen_fire_tmp(rng, calc, family):
     w["ammos"].append({"dm": 0, "mv": [gen.pick(rng, [2400.0, 2700.0, 2700.0, 3000.0]), "FPS"]})
     w["weapons"].append({"sight_height": [2.0, "Inch"], "twist": [10.0, "Inch"], "zero": [0.08, "Degree"]})
     w["atmos"].append({"kind": "icao", "altitude": [gen.pick(rng, [0.0, 1500.0]), "Foot"]})
-    w["shots"].append({"weapon": 0, "ammo": 0, "atmo": 0, "winds": None, "look": [0.0, "Degree"],
+    winds = None
+    if rng.random() < 0.5:
+        # two or three wind segments whose until-distances are written in DIFFERENT units and are close in value
+        # (100 yd vs 95 m: displayed numbers order differently from the distances)
+        for until in rng.sample([[100.0, "Yard"], [95.0, "Meter"], [290.0, "Foot"], [0.11, "Kilometer"], [3300.0, "Inch"]], rng.randint(2, 3)):
+            w["winds"].append({"velocity": [round(rng.uniform(3, 25), 1), "MPH"], "direction": [gen.pick(rng, [90.0, 270.0, 45.0]), "Degree"],
+                               "until": until})
+        w["windlists"].append(list(range(len(w["winds"]))))
+        winds = 0
+    w["shots"].append({"weapon": 0, "ammo": 0, "atmo": 0, "winds": winds, "look": [0.0, "Degree"],
                        "relative": [0.0, "Degree"], "cant": [0.0, "Degree"]})
     return {"op": "fire_tmp", "calc": calc, "world": w, "range": [gen.pick(rng, [200.0, 300.0]), "Yard"],
             "step": [100.0, "Yard"]}
 
 
-def gen_client_program(rng, w, task_idx, calcs, shots, n_ops, raising_calcs, allow=("fire", "zero", "elev", "danger", "mk", "powder", "fire_tmp", "edit")):
+def gen_client_program(rng, w, task_idx, calcs, shots, n_ops, raising_calcs, allow=("fire", "zero", "elev", "danger", "mk", "powder", "fire_tmp", "edit", "retag")):
     """calcs: list of calc ids owned by the task; raising_calcs: {cid: kind}.  Every calc is created by a new_calc
     op before its first use (sometimes late, so creation interleaves with other tasks' work)."""
     prog = []
@@ -214,6 +237,8 @@ def gen_client_program(rng, w, task_idx, calcs, shots, n_ops, raising_calcs, all
             continue
         elif kind == "mk":
             prog.append(gen_mk_op(rng))
+        elif kind == "retag":
+            prog.append(gen_retag(rng, w))
         elif kind == "edit":
             # the caller changes a field of an object it owns between computations (holds, a different load, ...)
             if not own_ammos and rng.random() < 0.5:
